@@ -11,10 +11,30 @@ ASSUMPTIONS = [
 
 def tok_conditions(tier, t):
     # token-level runs of the real table-driven parser (c12_tok.py)
-    n = 5 if tier == 'quick' else 6
+    q = tier == 'quick'
+    sym = ['number of tokens']
+    csl = ['token kinds k0..k6 (lazy bisection, only viable prefixes are extended)', 'token texts from the pool of the kind (numbers 1 / 7, names M / MC / x, strings with / without content)']
+    T = lambda k, v=None: [k, v if v is not None else k.capitalize()]
+    n = 3 if q else 4
     out = [Cond('tok_any%d' % n, 'c12_tok.py', dict(alpha='full', n=n), func='check_tokens', timeout=t,
-                bound='EVERY token string of up to %d tokens over the loader\'s whole alphabet of 27 token kinds, token texts unconstrained symbolic strings' % n,
-                symbolic=['token texts v0..v6 (str, any code points, any length)', 'number of tokens'], case_split=['token kinds k0..k6 (lazy bisection)'])]
+                bound='EVERY token string of up to %d tokens over the loader\'s whole alphabet of 27 token kinds' % n,
+                symbolic=sym, case_split=csl)]
+    pinned = [
+        ('insert_values', [T('INSERT'), T('INTO'), T('ID', 'T'), T('VALUES'), T('LPAREN', '(')], 'values', 4 if q else 5, []),
+        ('insert_named', [T('INSERT'), T('INTO'), T('ID', 'T'), T('LPAREN', '(')], 'small', 3 if q else 4, []),
+        ('create_table', [T('CREATE'), T('TABLE'), T('ID', 'T'), T('LPAREN', '(')], 'ids', 4 if q else 5, []),
+        ('create_index', [T('CREATE'), T('UNIQUE'), T('INDEX'), T('ID', 'I'), T('ON')], 'small', 3 if q else 4, []),
+        ('rop_from_end', [T('CREATE'), T('ROP'), T('REF_ID'), T('RELID', 'R1'), T('FROM')], 'ends', 4 if q else 5,
+         [T('TO'), T('CARDINALITY', '1C'), T('ID', 'B'), T('LPAREN', '('), T('ID', 'k'), T('RPAREN', ')'), T('SEMICOLON', ';')]),
+        ('rop_to_end', [T('CREATE'), T('ROP'), T('REF_ID'), T('RELID', 'R1'), T('FROM'), T('ID', 'MC'), T('ID', 'A'), T('LPAREN', '('), T('ID', 'r'), T('RPAREN', ')'), T('PHRASE'), T('STRING', "'p q'"), T('TO')],
+         'ends', 4 if q else 5, []),
+        ('second_statement', [T('INSERT'), T('INTO'), T('ID', 'T'), T('VALUES'), T('LPAREN', '('), T('NUMBER', '1'), T('RPAREN', ')'), T('SEMICOLON', ';')], 'full', 3 if q else 4, []),
+    ]
+    for name, prefix, alpha, n, suffix in pinned:
+        out.append(Cond('tok_%s' % name, 'c12_tok.py', dict(alpha=alpha, n=n, prefix=prefix, suffix=suffix), func='check_tokens', timeout=t,
+                        bound='the tokens %s, then EVERY string of up to %d tokens over the alphabet %r%s'
+                              % (' '.join(p[1] for p in prefix), n, alpha, (', then ' + ' '.join(p[1] for p in suffix)) if suffix else ''),
+                        symbolic=sym, case_split=csl, twin=(name == 'insert_values')))
     return out
 
 
@@ -35,7 +55,7 @@ def conditions(tier, seed):
              case_split=['ri', 'ui']),
     ] + [
         Cond('input_texts_s%d' % sh, 'c12_load.py', dict(shard=sh, nshards=16), func='check_input_seq', timeout=t,
-             bound='every sequence of three input() calls from the pool of 13 texts on one loader (shard %d/16); builds before / after every rejected call and against a fresh loader' % sh,
+             bound='every sequence of three input() calls from the pool of 15 texts on one loader (shard %d/16); builds before / after every rejected call and against a fresh loader' % sh,
              case_split=['si (sequence)'], realised=['texts'], twin=(sh == 0)) for sh in range(16)
     ] + tok_conditions(tier, t) + [
         Cond('scanner_backtracking', 'c13_redos.py', dict(scanner='load', property='C12'), kind='script', timeout=900,
